@@ -101,7 +101,7 @@ const nGoodLocators = 4
 // extra method universe, command and whether it has an affinity section.
 type ExtraEntry struct {
 	Names  []int `json:"names"` // indexes into methodNames[MExtra0:]
-	Cmd    int   `json:"cmd"`   // 0 BOUND 1 BIND 2 UNBIND
+	Cmd    int   `json:"cmd"`   // 0 BOUND 1 BIND 2 UNBIND 3 a number the enum does not define
 	HasAff bool  `json:"has_aff"`
 }
 
@@ -295,6 +295,9 @@ var profiles = map[string]func(r *rand.Rand, p *Plan) weights{
 		n := r.IntN(3)
 		for i := 0; i < n && len(perm) > 0; i++ {
 			e := ExtraEntry{Cmd: r.IntN(3), HasAff: r.IntN(4) > 0}
+			if r.IntN(6) == 0 {
+				e.Cmd = 3 // a command number this version of the enum does not define (proto3 enums are open)
+			}
 			for j := 0; j < 1+r.IntN(2) && len(perm) > 0; j++ {
 				e.Names = append(e.Names, perm[0])
 				perm = perm[1:]
@@ -681,6 +684,69 @@ func Generate(r *rand.Rand, profile string, concurrent bool, av Avoid) *Plan {
 			frag = append(frag, Op{K: OpPick, B: MPlain}, Op{K: OpConn, A: -1, B: ConnProgress}, Op{K: OpConn, A: -1, B: ConnProgress})
 		}
 		at := 1 + r.IntN(3)
+		ops := append([]Op{}, p.Ops[:at]...)
+		ops = append(ops, frag...)
+		p.Ops = append(ops, p.Ops[at:]...)
+	}
+	// Directed fragment (scale): hundreds of calls in flight. Defaults (no pool
+	// section: at most 4 channels, watermark 100) or a small pool with the
+	// defaulted watermark: every call is held, each channel that growth adds is
+	// brought up at once, up to 450 calls - beyond watermark x maxSize, where
+	// calls must spread over the channels and no further channel may appear.
+	if (profile == "load" || profile == "config" || profile == "growth") && !concurrent && !p.Cfg.RR && !p.Cfg.NilCfg && r.IntN(60) == 0 && len(p.Ops) > 4 {
+		switch r.IntN(3) {
+		case 0:
+			p.Cfg.NilPool = true // defaults: 1 / 4 / 100
+		case 1:
+			p.Cfg.NilPool = false
+			p.Cfg.Min, p.Cfg.Max, p.Cfg.WM = 2, 2, 0
+		case 2:
+			p.Cfg.NilPool = false
+			p.Cfg.Min, p.Cfg.Max, p.Cfg.WM = 0, 3, 100
+		}
+		p.Cfg.UCalls, p.Cfg.UMs = 0, 0
+		frag := []Op{}
+		for c := 0; c < 3; c++ {
+			frag = append(frag, Op{K: OpConn, A: c, B: ConnProgress}, Op{K: OpConn, A: c, B: ConnProgress})
+		}
+		n := 210 + r.IntN(240)
+		for c := 0; c < n; c++ {
+			frag = append(frag, Op{K: OpPick, B: MPlain})
+			if c%20 == 19 || c%100 > 97 || c%100 < 3 {
+				// whatever growth created comes up
+				frag = append(frag, Op{K: OpConn, A: -1, B: ConnProgress}, Op{K: OpConn, A: -1, B: ConnProgress})
+			}
+		}
+		for c := 0; c < 10; c++ {
+			frag = append(frag, Op{K: OpDone, A: r.IntN(n), B: OutOK}, Op{K: OpPick, B: MPlain})
+		}
+		at := 1
+		ops := append([]Op{}, p.Ops[:at]...)
+		ops = append(ops, frag...)
+		p.Ops = append(ops, p.Ops[at:]...)
+	}
+	// Directed fragment: a round-robin BIND call waits for its channel while that
+	// channel flaps between CONNECTING, TRANSIENT_FAILURE and IDLE fifty times and
+	// more (every report wakes the waiting call up): it keeps waiting quietly and
+	// returns as soon as the channel is READY or its context ends.
+	if profile == "rr" && !concurrent && r.IntN(20) == 0 && len(p.Ops) > 4 {
+		p.Cfg.RR = true
+		p.Cfg.Min, p.Cfg.Max = 2, 2
+		frag := []Op{{K: OpConn, A: 0, B: ConnProgress}, {K: OpConn, A: 0, B: ConnProgress}, {K: OpConn, A: 1, B: ConnProgress},
+			{K: OpPick, B: MBind, Keys: []int{0}}, {K: OpPick, B: MBind, Keys: []int{1}, D: 1, E: 5000}}
+		for c := 16 + r.IntN(16); c > 0; c-- {
+			// CONNECTING -> TRANSIENT_FAILURE -> IDLE -> CONNECTING: never READY
+			frag = append(frag, Op{K: OpConn, A: 1, B: ConnFail}, Op{K: OpConn, A: 1, B: ConnFail})
+			if r.IntN(3) == 0 {
+				frag = append(frag, Op{K: OpConn, A: 1, B: ConnDuplicate})
+			}
+			frag = append(frag, Op{K: OpConn, A: 1, B: ConnProgress})
+		}
+		frag = append(frag, Op{K: OpAdvance, E: 150}, Op{K: OpAdvance, E: 150})
+		if r.IntN(2) == 0 {
+			frag = append(frag, Op{K: OpConn, A: 1, B: ConnProgress}, Op{K: OpConn, A: 1, B: ConnProgress}, Op{K: OpConn, A: 1, B: ConnProgress})
+		}
+		at := 1
 		ops := append([]Op{}, p.Ops[:at]...)
 		ops = append(ops, frag...)
 		p.Ops = append(ops, p.Ops[at:]...)
